@@ -1,5 +1,6 @@
 use crate::traits::codec::{MessageDecoder, MessageEncoder};
 use anyhow::Result;
+use bincode::Options;
 use bytes::{Buf, Bytes, BytesMut};
 use serde::{de::DeserializeOwned, Serialize};
 use std::marker::PhantomData;
@@ -47,7 +48,15 @@ impl<Item: Serialize> MessageEncoder<Item> for BincodeCodec<Item> {
 /// Returns [Err] if the [BytesMut](bytes::BytesMut) payload fails to deserialize into `Item`.
 impl<Item: DeserializeOwned> MessageDecoder<Item> for BincodeCodec<Item> {
     fn decode(&self, buffer: &mut BytesMut) -> Result<Item> {
-        Ok(bincode::deserialize_from(buffer.reader())?)
+        // Same encoding as `bincode::deserialize_from`, but bounded by the size of the
+        // payload: a length prefix inside it must not decide how much memory is allocated
+        let limit = buffer.len() as u64;
+
+        Ok(bincode::options()
+            .with_fixint_encoding()
+            .allow_trailing_bytes()
+            .with_limit(limit)
+            .deserialize_from(buffer.reader())?)
     }
 }
 
